@@ -2,8 +2,8 @@
 from engine.driver import Cond, Run, source_fingerprint
 from checks.C07 import FILES, ENCODED
 
-PROGS_Q = [1, 2, 17, 21, 22, 27, 33, 34]
-PROGS_T = list(range(35))
+PROGS_Q = [1, 2, 17, 21, 22, 27, 33, 37]
+PROGS_T = list(range(38))
 
 
 def run(tier):
